@@ -640,6 +640,73 @@ def task_solve(sslsolver, cycle, supplied):
     return col.pack()
 
 
+# ------------------------------------------------------------------ solve_source
+def task_solve_source():
+    """solver.solve_source(model, source, frequency, **kwargs): the source field is get_source_field(model.grid, source, frequency) and the
+    result is what solve(model, that field, **kwargs) returns -- so every clause about solve carries over, for every option"""
+    col = ob.Collector(PROP, 'solver.solve_source')
+    col.function('solver.solve_source')
+    col.function('solver.solve')      # the parameter names of solve decide whether a keyword could be captured on the way
+
+    def mk(ctx, extra):
+        log = []
+
+        def gsf(it, args, kw, node):
+            sf = new_field('source-field')
+            log.append(('get_source_field', list(args), dict(kw), sf))
+            return sf
+
+        def solve_(it, args, kw, node):
+            out = cx.Opaque('what-solve-returns')
+            log.append(('solve', list(args), dict(kw), out))
+            return out
+        ctx.summaries.update({'fields.get_source_field': gsf, 'solver.solve': solve_})
+        model = cx.Obj('Model', dict(grid=cx.Obj('TensorMesh', {})))
+        src, frq = cx.Opaque('the-source'), z3.Real('frequency')
+        kw = dict(extra)
+        return [model, src, frq], kw, dict(model=model, src=src, frq=frq, kw=kw, log=log)
+    opts_sets = [{}, dict(efield=cx.Opaque('start-field'), tol=z3.Real('tol'), return_info=True, sslsolver='bicgstab', cycle=None, maxit=z3.Int('maxit'))]
+    res = []
+    for extra in opts_sets:
+        res += cx.run_function('solver.solve_source', lambda ctx, extra=extra: mk(ctx, extra), summaries={}, opts={})
+
+    def wiring(r):
+        log = r.state['log']
+        g = [x for x in log if x[0] == 'get_source_field']
+        sv = [x for x in log if x[0] == 'solve']
+        if r.outcome != 'return' or len(g) != 1 or len(sv) != 1:
+            return False
+        from .c0910 import bind_call
+        try:
+            bg = bind_call('fields.get_source_field', g[0][1], g[0][2])
+            bs = bind_call('solver.solve', sv[0][1], sv[0][2])
+        except Exception:
+            from .cxutil import UNRECOGNISED
+            return UNRECOGNISED('calls of get_source_field / solve cannot be bound to their signatures')
+        ok = bg.get('grid') is r.state['model'].fields['grid'] and bg.get('source') is r.state['src'] and bg.get('frequency') is r.state['frq']
+        ok = ok and bs.get('model') is r.state['model'] and bs.get('sfield') is g[0][3]
+        given = r.state['kw']
+        rest = dict(bs)
+        rest.update(rest.pop('**', {}) or {})
+        ok = ok and all(k in rest and rest[k] is v for k, v in given.items())
+        return ok and r.value is sv[0][3]
+    clause(col, 'source_field_of_the_given_source_on_the_model_grid_is_solved_with_every_given_option__result_handed_back_unchanged', res, wiring, sample=True)
+    def exact(r):
+        sv = [x for x in r.state['log'] if x[0] == 'solve']
+        if len(sv) != 1:
+            return False
+        # what is handed to solve besides the model and the source field (positional and keyword forms are the same call)
+        passed = set(sv[0][2]) | set(['model', 'sfield'][:len(sv[0][1])])
+        if len(sv[0][1]) > 2:
+            from .cxutil import UNRECOGNISED
+            return UNRECOGNISED('options are handed to solve positionally')
+        return passed - {'model', 'sfield'} == set(r.state['kw']) and {'model', 'sfield'} <= passed
+    clause(col, 'no_option_is_added_or_dropped_on_the_way_to_solve', res, exact)
+    canary(col, 'canary/start_field_is_dropped', [r for r in res if r.state['kw']],
+           lambda r: z3.BoolVal('efield' not in [x for x in r.state['log'] if x[0] == 'solve'][0][2]))
+    return col.pack()
+
+
 def task_concrete():
     from . import c01_concrete
     col = ob.Collector(PROP, 'concrete')
@@ -660,7 +727,7 @@ def task_concrete():
 def tasks(tier):
     t = [('contracts.c01', 'task_terminate', {}), ('contracts.c01', 'task_residual', {}), ('contracts.c01', 'task_multigrid', {}),
          ('contracts.c01', 'task_krylov', dict(cycle='F')), ('contracts.c01', 'task_krylov', dict(cycle=None)),
-         ('contracts.c01', 'task_concrete', {})]
+         ('contracts.c01', 'task_solve_source', {}), ('contracts.c01', 'task_concrete', {})]
     for ssl, cyc in ((False, 'F'), ('bicgstab', 'F'), ('bicgstab', None)):
         for sup in (False, True):
             t.append(('contracts.c01', 'task_solve', dict(sslsolver=ssl, cycle=cyc, supplied=sup)))
